@@ -532,19 +532,24 @@ TRet ==
                      /\ viol' = Report(StateChecks(op, e.obs, e.fateq) \cup (IF disk # pre THEN {<<"C07", "Refused", "refused write wrote">>} ELSE {}))
                 ELSE /\ UNCHANGED apiVars /\ dur' = dur
                      /\ viol' = Report({<<ResProp(op, refs, r), "Result", op \o ":" \o r.k \o ":" \o r.e>>})
-           ELSE LET f == RecOf(ofiles, a.f)
+           ELSE LET f0 == RecOf(ofiles, a.f)
+                    heads == OrphanHeads(disk[v]) \ OrphanHeads(pre[v])
+                    \* f0.fcq: the first cluster was allocated by an earlier call that failed before any data reached it. The
+                    \* library may have kept it for the file (this one does) or not; if it starts a new chain now, it did not.
+                    forgot == f0.fcq /\ EntryPos(pre[v], f0.dir, f0.n).sl.c = 0 /\ Cardinality(heads) = 1
+                    f == IF forgot THEN [f0 EXCEPT !.fc = 0] ELSE f0
                     room == RoomFor(pre[v], f)
+                    roomB == IF f0.fcq THEN RoomFor(pre[v], [f0 EXCEPT !.fc = 0]) ELSE room
                     fits == n <= room
                     acc == IF ok THEN n ELSE LET o == ObsOff(e.obs, a.f) IN IF o >= f.off /\ o - f.off <= n THEN o - f.off ELSE 0
                     st0 == FileStart(pre[v], f)
-                    heads == OrphanHeads(disk[v]) \ OrphanHeads(pre[v])
                     fc == IF st0 # 0 THEN f.fc
                           ELSE IF Cardinality(heads) = 1 THEN CHOOSE x \in heads : TRUE ELSE 0
                     \* a zero-length write allocates a first cluster (named deviation): on a full
                     \* volume it may therefore fail although nothing needed to be stored
                     zeroFull == n = 0 /\ st0 = 0 /\ FreeSet(pre[v]) = {}
                     resOK == \/ ok /\ (fits \/ zeroFull)
-                             \/ r.k = "err" /\ r.e \in SpaceErrs /\ (~fits \/ zeroFull) /\ acc = Min2(n, room)
+                             \/ r.k = "err" /\ r.e \in SpaceErrs /\ (~fits \/ zeroFull \/ n > roomB) /\ acc \in {Min2(n, room), Min2(n, roomB)}
                 IN IF resOK
                    THEN /\ WritePost(a.f, a.vals, acc, now, ok, fc)
                         /\ dur' = [dur EXCEPT ![v] = {x \in @ : ~(x.dir = f.dir /\ x.n = f.n)}]
@@ -682,7 +687,10 @@ TRetFault ==
          \* (otherwise it may be a lost cluster the library knows nothing about)
          wanted == IF fileop /\ op = "write" /\ o.len > 0 THEN SubSeq(Overwrite(FileData(f), f.off, a.vals), 1, o.len) ELSE <<>>
          cands == {x \in heads : o.len > 0 /\ DataOf(d, x, o.len) = wanted}
-         fc1 == IF ~fileop THEN 0 ELSE IF st0 # 0 THEN f.fc ELSE IF Cardinality(cands) = 1 THEN CHOOSE x \in cands : TRUE ELSE 0
+         \* ... or the library kept it all the same: bound tentatively (fcq), settled by the next write
+         tent == fileop /\ op = "write" /\ st0 = 0 /\ cands = {} /\ Cardinality(heads) = 1
+         fc1 == IF ~fileop THEN 0 ELSE IF st0 # 0 THEN f.fc ELSE IF Cardinality(cands) = 1 THEN CHOOSE x \in cands : TRUE
+                ELSE IF tent THEN CHOOSE x \in heads : TRUE ELSE 0
          st1 == IF st0 # 0 THEN st0 ELSE fc1
          lst2 == IF fileop /\ op = "write" /\ o.h # -1 /\ o.len >= 0
                  THEN [i \in 1..Len(lst1) |-> IF lst1[i].n = nm THEN [ModelEntryOr(dirs[v][id], lst1[i]) EXCEPT !.data = DataOf(d, st1, o.len), !.len = lst1[i].len, !.mt = lst1[i].mt] ELSE lst1[i]]
@@ -697,7 +705,7 @@ TRetFault ==
      IN /\ dirs' = dirs1
         /\ ofiles' = IF op = "close_file" /\ fileop THEN DropAt(ofiles, IdxOf(ofiles, a.f))
                      ELSE IF fileop /\ o.h # -1 /\ o.off >= 0
-                     THEN [ofiles EXCEPT ![IdxOf(ofiles, a.f)] = [@ EXCEPT !.off = o.off, !.fc = fc1, !.dirty = (@ \/ op = "write")]]
+                     THEN [ofiles EXCEPT ![IdxOf(ofiles, a.f)] = [@ EXCEPT !.off = o.off, !.fc = fc1, !.fcq = (IF st0 # 0 THEN @ ELSE tent), !.dirty = (@ \/ op = "write")]]
                      ELSE ofiles
         /\ UNCHANGED <<ovols, odirs, lim>>
         /\ viol' = Report(
